@@ -756,9 +756,14 @@ def parse_model(model: str, *, check_syntax: bool = True) -> List[Symbol]:
                 with warnings.catch_warnings(record=True) as w:
                     warnings.simplefilter('always')
 
-                    # Check the syntax of the current equation without running it
+                    # Check the syntax of the current equation without running
+                    # it, in the context it will run in: the body of a method
                     try:
-                        compile(e, '<string>', 'exec')
+                        compile(
+                            'def _():\n' + textwrap.indent(e, '    ') + '\n    pass',
+                            '<string>',
+                            'exec',
+                        )
                     except SyntaxError:
                         problem_statements.append((i, statement, e))
                         break
